@@ -338,17 +338,15 @@ def LP.toPK : LP → PK
   | .ltVV x y => .leq (.next (.var x)) (.var y)
   | .addVV x y s => .add (.var x) (.var y) s
   | .subVV x y s => .add (.var x) (IView.timesNeg (.var y) (-1)) s
-  | .mulVV _ _ _ => .noop
+  | .mulVV x y s => .mul (.var x) (.var y) s
   | .divVV _ _ _ => .noop
-  | .modVV _ _ _ => .noop
+  | .modVV x y s => .modulo (.var x) (.var y) s
   | .linEq cs xs c => .linEq cs xs c
   | .linLe cs xs c => .linLe cs xs c
   | .linNe cs xs c => .linNe cs xs c
 
 def LP.supported : LP → Bool
-  | .mulVV _ _ _ => false
   | .divVV _ _ _ => false
-  | .modVV _ _ _ => false
   | _ => true
 
 end Selen
